@@ -247,6 +247,12 @@ def real_replay(cfg, special=None):
         Mr = np.eye(u) * 3.0
         Mr[0, 1] = Mr[1, 0] = -1.5
         Mr[0, 2] = Mr[2, 0] = -1.5       # column 0 sums to zero, M stays positive definite
+    if special == 'tiny-mass':
+        Dg = np.ones(u)
+        Dg[0] = 1e-10
+        Mr = Dg[:, None] * Mr * Dg[None, :]     # one amplitude with a tiny (not zero) mass: M stays positive definite
+    if special == 'tiny-stiffness':
+        Kr = Kr * 1e-10
     K = np.zeros((n, n))
     M = np.zeros((n, n))
     K[np.ix_(active, active)] = Kr
@@ -356,11 +362,15 @@ def main():
         if sats:
             fam = sorted({s['name'].split('[')[0] for s in sats})
             special = 'zero-column-sum' if (cfg['path'] == 'dense' and not cfg.get('reduced') and not cfg.get('history')) else None
-            real = real_replay(cfg, special)
+            # concrete matrices for the replay: generic, then the special shapes a symbolic path may stand for
+            for special in [special, 'tiny-mass', 'tiny-stiffness']:
+                real = real_replay(cfg, special)
+                if real.get('raised') or real.get('worst_rel_residual', 0) > 1e-6:
+                    break
             rep = {'cfg': cfg, 'failed': [s['name'] for s in sats][:12], 'model': sats[0]['model'], 'real_function': real}
             if real.get('raised') or real.get('worst_rel_residual', 0) > 1e-6:
                 run.violation('%s/%s' % (cfg['group'], '+'.join(fam)), '%s %s: %s fail; real function%s: %s' % (
-                    cfg['target'], cfg['variant'], fam, ' with a positive definite M one of whose columns sums to zero' if special else '', real), rep)
+                    cfg['target'], cfg['variant'], fam, {'zero-column-sum': ' with a positive definite M one of whose columns sums to zero', 'tiny-mass': ' with one amplitude of tiny, non-zero mass (row and column scaled by 1e-10)', 'tiny-stiffness': ' with the stiffness matrix scaled by 1e-10'}.get(special, ''), real), rep)
             else:
                 run.harness_error('sat obligations %s of %s did not replay on the real function (%s)' % (fam, cfg['variant'], real))
     # canary
